@@ -8,6 +8,7 @@ package main
 import (
 	"encoding/json"
 	"fmt"
+	"os"
 	"sort"
 	"strings"
 
@@ -26,7 +27,7 @@ type Step struct {
 }
 
 type Case struct {
-	Kind  string   `json:"kind"` // tree | ot
+	Kind  string   `json:"kind"` // tree | ot | otv (object tree with the real validator; dag entries may be "bad")
 	Gen   string   `json:"gen"`
 	Dag   []Chg    `json:"dag"` // root first
 	Hists [][]Step `json:"hists"`
@@ -115,14 +116,14 @@ func runTreeHist(dm map[int]Chg, hist []Step) (obs []Obs, monoBad bool, panicked
 
 // ---------------------------------------------------------------- level 2: object tree + storage
 
-func runOTHist(w *World, dag []Chg, hist []Step) (obs []Obs, monoBad bool, panicked string) {
+func runOTHist(w *World, dag []Chg, hist []Step, real bool) (obs []Obs, monoBad bool, panicked string) {
 	defer func() {
 		if r := recover(); r != nil {
 			panicked = fmt.Sprint(r)
 		}
 	}()
 	dm := dagMap(dag)
-	p := w.NewPeer(dag[0])
+	p := w.newPeer(dag[0], real)
 	for _, st := range hist {
 		o := Obs{Mode: "Nothing"}
 		switch st.Op {
@@ -181,9 +182,12 @@ func stepTerm(st Step, o Obs) string {
 
 func caseTerm(c Case, obs [][]Obs) string {
 	var sb strings.Builder
-	if c.Kind == "tree" {
+	switch c.Kind {
+	case "tree":
 		sb.WriteString("(CTree [")
-	} else {
+	case "otv":
+		sb.WriteString("(COTV [")
+	default:
 		sb.WriteString("(COT [")
 	}
 	for i, ch := range c.Dag {
@@ -192,7 +196,17 @@ func caseTerm(c Case, obs [][]Obs) string {
 		}
 		sb.WriteString(chgTerm(ch))
 	}
-	sb.WriteString("] [")
+	if c.Kind == "otv" {
+		var bad []int
+		for _, ch := range c.Dag {
+			if ch.Bad != 0 {
+				bad = append(bad, ch.ID)
+			}
+		}
+		sb.WriteString("] " + nl(bad) + " [")
+	} else {
+		sb.WriteString("] [")
+	}
 	for h, hist := range c.Hists {
 		if h > 0 {
 			sb.WriteString(";\n  ")
@@ -230,7 +244,7 @@ func (r *runner) run(c Case) {
 		if c.Kind == "tree" {
 			obs[h], mb, p = runTreeHist(dm, hist)
 		} else {
-			obs[h], mb, p = runOTHist(r.w, c.Dag, hist)
+			obs[h], mb, p = runOTHist(r.w, c.Dag, hist, c.Kind == "otv")
 		}
 		mono = mono || mb
 		if p != "" {
@@ -255,6 +269,10 @@ func (r *runner) run(c Case) {
 		}
 	}
 	nontrivial := len(c.Dag) >= 3 && branching && len(c.Hists) >= 2
+	if c.Kind == "otv" {
+		// a rejected-delivery case counts only if some delivery really was rejected after attaching something
+		nontrivial = nontrivial && r.rejStats(c, dm, obs)
+	}
 	term := caseTerm(c, obs)
 	idx := r.out.Add(term, c, term, nontrivial)
 	if pan != "" {
@@ -317,19 +335,24 @@ func main() {
 	rng := vlib.NewRand(o.Seed)
 	thorough := o.Tier == "thorough"
 
+	// C06_PART=rej runs only the rejected-delivery generators, C06_PART=base everything else (development aid)
+	part := os.Getenv("C06_PART")
 	// 1. exhaustive small DAGs on the Tree type: all parent-set choices x all id assignments x arrival orders
 	maxN := 3
 	if thorough {
 		maxN = 4
 	}
 	exh := 0
-	for n := 1; n <= maxN; n++ {
+	for n := 1; n <= maxN && part != "rej"; n++ {
 		exh += exhaustiveTree(r, rng, n)
 	}
 	// 2. random DAGs on the Tree type
 	nTree := 200 * o.Budget
 	if thorough {
 		nTree = 2000 * o.Budget
+	}
+	if part == "rej" {
+		nTree = 0
 	}
 	for k := 0; k < nTree; k++ {
 		g := rng.Fork(uint64(k))
@@ -346,6 +369,9 @@ func main() {
 	if thorough {
 		nOT = 900 * o.Budget
 	}
+	if part == "rej" {
+		nOT = 0
+	}
 	for k := 0; k < nOT; k++ {
 		g := rng.Fork(uint64(1000000 + k))
 		size := 3 + g.Intn(12)
@@ -358,10 +384,27 @@ func main() {
 			r.run(Case{Kind: "tree", Gen: "authored", Dag: dag, Hists: treeHists(g, dag, 3)})
 		}
 	}
+	// 4. rejected deliveries: object trees with the REAL validator; batches that attach and are then rejected
+	famN := 0
+	nRej := 60 * o.Budget
+	if thorough {
+		nRej = 600 * o.Budget
+	}
+	if part == "base" {
+		nRej = 0
+	} else {
+		famN = rejFamily(r)
+	}
+	for k := 0; k < nRej; k++ {
+		g := rng.Fork(uint64(2000000 + k))
+		r.run(rejRandom(w, g))
+	}
 	r.out.Finish("one case = one DAG with several arrival histories (permutation, partition into batches, duplicates, "+
-		"reopen points); generators: exhaustive DAGs with <= maxN non-root changes x all id assignments x arrival orders on the "+
+		"reopen points); otv cases: object trees with the real validator, DAG extended by changes that fail validation, "+
+		"histories with deliveries that attach and are rejected (rollback) next to a clean history over the same sets "+
+		"(non-trivial only if a delivery was rejected after attaching); generators: exhaustive DAGs with <= maxN non-root changes x all id assignments x arrival orders on the "+
 		"Tree type, random DAGs up to 200 changes on the Tree type, honest DAGs authored by 2-4 real peers (snapshots, concurrent "+
 		"snapshots, reduced trees) replayed on object trees over any-store storage; a case is non-trivial if the DAG has >= 3 "+
 		"changes, branches or merges, and is replayed in >= 2 histories; distinct by full case term",
-		r.samples, map[string]interface{}{"exhaustive_dags": exh, "max_n": maxN})
+		r.samples, map[string]interface{}{"exhaustive_dags": exh, "max_n": maxN, "reject_family_cases": famN})
 }
